@@ -1554,7 +1554,7 @@ pub fn panic_location(msg: &str) -> String {
     LAST_PANIC.lock().ok().and_then(|g| g.iter().rev().find(|(m, _)| m == msg).map(|(_, l)| l.clone())).unwrap_or_default()
 }
 
-pub const OP_TIMEOUT: Duration = Duration::from_secs(120);
+pub const OP_TIMEOUT: Duration = Duration::from_secs(60);
 
 /// Run a future with panic capture and a watchdog.
 pub async fn guarded<T, F>(f: F) -> Result<T, ScanErr>
@@ -1750,6 +1750,16 @@ pub fn set_diff(a: &BTreeSet<i64>, b: &BTreeSet<i64>) -> (Vec<i64>, Vec<i64>) {
 
 pub fn trunc<T: Clone>(v: &[T], n: usize) -> Vec<T> {
     v.iter().take(n).cloned().collect()
+}
+
+/// A setup / history operation of the harness failed: a watchdog timeout is *inconclusive*
+/// (three-valued verdicts), anything else a harness error.
+pub fn op_failed(report: &vmon::report::Report, msg: &str) {
+    if msg.contains("timeout") || msg.contains("Timeout") {
+        report.inconclusive(msg);
+    } else {
+        report.harness_error(msg);
+    }
 }
 
 /// Worker threads of a check: env `VERIF_THREADS` (default 16).
